@@ -442,19 +442,27 @@ def check_invalid(case) -> Case:
     files = L["files"]()
     failures, labels = [], ["kind=invalid", f"section={section}", f"what={case['what']}"]
     with new_project(files) as p:
+        opts = []
         if case["what"] == "value":
             cfg_args = install(p, case["carrier"], full_cfg(name, section, {case["key"]: case["value"]}), case["spelling"])
+        elif case["what"] == "lang-value":  # the invalid value sits in a per-language sub-section
+            cfg_args = install(p, case["carrier"], full_cfg(name, section, {case["lang_key"]: {case["key"]: case["value"]}}), case["spelling"])
+        elif case["what"] == "cli-value":  # the invalid value comes from the command-line threshold option
+            cfg_args = install(p, case["carrier"], full_cfg(name, section, {}), case["spelling"])
+            opts = [L["cli"][case["key"]], str(case["value"])]
         else:
             broken = {"yaml": (".thailint.yaml", "nesting: [unclosed\n  x: {\n"), "json": (".thailint.json", '{"nesting": {"max_nesting_depth": 3,}'),
                       "pyproject": ("pyproject.toml", "[tool.thailint\nnesting = {\n"), "cfg-yaml": ("custom-config.yaml", "a: b: c: [\n"),
                       "cfg-json": ("custom-config.json", "{not json")}[case["carrier"]]
             p.write(*broken)
             cfg_args = ["--config", broken[0]] if case["carrier"].startswith("cfg-") else []
-        r = runner.run_cli([L["cmd"], *cfg_args, "--format", "json", "."], cwd=p.root)
+        r = runner.run_cli([L["cmd"], *cfg_args, "--format", "json", *opts, "."], cwd=p.root)
     if r.exit != 2:
-        what = f"{case['key']}={case['value']}" if case["what"] == "value" else "unparsable"
-        sec = section if case["what"] == "value" else "*"
-        failures.append(Failure(f"{sec}|invalid|{case['carrier']}|{what if case['what'] == 'value' else 'unparsable-file'}|exit-{r.exit}",
+        isval = case["what"] in ("value", "lang-value", "cli-value")
+        what = f"{case['key']}={case['value']}" if isval else "unparsable"
+        sec = section if isval else "*"
+        via = {"value": case["carrier"], "lang-value": case["carrier"] + "+language-section", "cli-value": "cli-option"}.get(case["what"], case["carrier"])
+        failures.append(Failure(f"{sec}|invalid|{via}|{what if isval else 'unparsable-file'}|exit-{r.exit}",
                                 {"cmd": L["cmd"], "carrier": case["carrier"], "spelling": case["spelling"], "exit": r.exit, "stdout": r.stdout[:200], "stderr": r.stderr[-200:]}))
     return Case(key=h(["invalid", case]), nontrivial=True, labels=labels, failures=failures)
 
@@ -569,6 +577,14 @@ def matrix_cells():
                         if spelling == "underscore" and "-" not in section:
                             continue
                         cells.append({"kind": "invalid", "what": "value", "linter": name, "section": section, "key": key, "value": value, "carrier": carrier, "spelling": spelling})
+            for key, value in L["invalid"]:
+                if key in L["cli"] and section == L["sections"][0]:
+                    cells.append({"kind": "invalid", "what": "cli-value", "linter": name, "section": section, "key": key, "value": value, "carrier": "yaml", "spelling": "hyphen"})
+                if L.get("lang_knob") == key or key in LANGMIX.get(name, []):
+                    for lang_key in ("python", "typescript"):
+                        for carrier in CARRIERS:
+                            cells.append({"kind": "invalid", "what": "lang-value", "linter": name, "section": section, "key": key, "value": value, "lang_key": lang_key,
+                                          "carrier": carrier, "spelling": "hyphen"})
         for carrier in CARRIERS:
             cells.append({"kind": "invalid", "what": "unparsable", "linter": name, "section": L["sections"][0], "carrier": carrier, "spelling": "hyphen"})
             for form in range(3):
@@ -579,8 +595,8 @@ def matrix_cells():
 def run(ctx):
     cells = matrix_cells()
     mine = ctx.my_cells(cells)
-    if ctx.quick:
-        mine = [c for i, c in enumerate(mine) if (i + ctx.seed) % 3 == 0]
+    if ctx.quick:  # every invalid-value cell (one CLI call each); half of the sweeps / ignore cells, rotating with the seed
+        mine = [c for i, c in enumerate(mine) if c["kind"] == "invalid" or (i + ctx.seed) % 2 == 0]
     done = ctx.each(mine, check)
     ctx.stats.extra.setdefault("matrix", {})["sweep/invalid/ignore cells: section x knob x carrier x spelling"] = {"cells": len(ctx.my_cells(cells)), "done": done}
     pairs = [(n, s) for n, L in LINTERS.items() for s in L["sections"]]
